@@ -39,7 +39,7 @@ def positive_control():
     rules(fctx, frep, ["fx.m.entry"], floors=False)
     got = {f.construct for f in frep.findings()}
     want = {"fx.m.appends_module_list", "fx.m.fills_module_memo", "fx.m.mutable_default", "fx.m.reads_environment",
-            "fx.m.iterates_a_set", "fx.m.cached_returns_list", "fx.m.Holder.__init__", "fx.m.extends_alias_in_place"}
+            "fx.m.iterates_a_set", "fx.m.cached_returns_list", "fx.m.Holder.__init__", "fx.m.extends_alias_in_place", "fx.m.cached_logs"}
     missing = want - got
     if missing:
         raise AnalysisError(f"purity positive controls silent for {sorted(missing)}: the effect rules no longer fire")
@@ -53,7 +53,7 @@ def run(ctx, rep):
         "classified by the root of its target (fresh allocation of this call, parameter -- resolved through all call sites --, self "
         "during construction, module/class-level object, unknown); memoised functions and cached properties must be pure with "
         "immutable results; no mutable defaults; no ambient reads, no hash(), no iteration over unordered sets on the parse path; "
-        "import-time effects limited to logging.basicConfig().  Positive controls (a fixture package with eight seeded impurities) "
+        "import-time effects limited to logging.basicConfig().  Positive controls (a fixture package with nine seeded impurities) "
         "must fire on every run.")
     rep.trusted += ["functools.lru_cache / cached_property are thread-safe memo tables keyed by all arguments / the instance"]
     n = positive_control()
